@@ -49,10 +49,14 @@ def run_sharded(cmd_of, cases, workdir, tag, header, nsh=None):
             f.write("\n".join(part) + "\n")
         env = dict(os.environ)
         env.update(ASAN_ENV)
-        procs.append((k, len(part), subprocess.Popen(cmd_of(p), stdout=subprocess.PIPE, stderr=subprocess.DEVNULL, env=env)))
+        of = open(p + ".out", "wb")       # a file, not a pipe: the shards must not block on a full pipe
+        procs.append((k, len(part), subprocess.Popen(cmd_of(p), stdout=of, stderr=subprocess.DEVNULL, env=env), of))
     out = [None] * len(cases)
-    for k, n, pr in procs:
-        lines = pr.communicate()[0].decode("utf-8", "replace").split("\n")
+    for k, n, pr, of in procs:
+        pr.wait()
+        of.close()
+        lines = open(of.name, "rb").read().decode("utf-8", "replace").split("\n")
+        os.remove(of.name)
         for i in range(n):
             out[k + i * nsh] = lines[i] if i < len(lines) and lines[i] != "" else "<missing>"
     return out
@@ -230,6 +234,18 @@ def first_diff(drv, mdl, ctx, case, tag="one"):
     rc, b = vf.sh([mdl, p, "full"], timeout=120)
     a = a.strip().split("\n")[-1] if a.strip() else "<missing>"
     b = b.strip().split("\n")[-1] if b.strip() else "<missing>"
+    if a.startswith("CRASH") or a.startswith("TIMEOUT") or a.startswith("THROW"):
+        # the child died: find the op by running every prefix
+        setup, ops = split_case(case)
+        open(p, "w").write(HEADER + "\n" + "\n".join(join_case(setup, ops[:n]) for n in range(1, len(ops) + 1)) + "\n")
+        rc, pa = vf.sh([drv, "full", p], timeout=600, env=ASAN_ENV)
+        pa = [l for l in pa.split("\n") if l.strip()]
+        good = ""
+        for l in pa:
+            if l.startswith("CRASH") or l.startswith("TIMEOUT") or l.startswith("THROW"):
+                a = (good + " ;; " if good else "") + l
+                break
+            good = l
     xs, ys = a.split(" ;; "), b.split(" ;; ")
     for i in range(max(len(xs), len(ys))):
         x = xs[i] if i < len(xs) else "<missing>"
